@@ -136,3 +136,10 @@ def g_rejects_array(tier):
 
 def groups(tier):
   return [("values[array]", g_values("array")), ("values[scalar]", g_values("scalar")), ("rejects[array]", g_rejects_array)]
+
+
+def native_replay(oid, model):
+  """counter-model -> command that drives the real API on a model of the same shape (scenarios/replay_native.py)"""
+  from .common import native_cmd
+
+  return native_cmd("key", model, masked=("none" not in oid.split("#")[0]))
